@@ -6,8 +6,10 @@ that do not mention the surface syntax: `S`-states, `psimp`, label / break / con
 header lemmas) are reused as they are.
 
 * `cleaf_shape`, `cleaf_run` : the leaf parser on a printed condition leaf (`CLeaf`) — `C02P.parseLeaf_print`
-  for the non-autovar leaves, `C11b.leaf_of_cmd` (generic in the command syntax) + `CmdGen.cmdF_run` for
-  auto-var leaves, and the three rejections (not configured / `format( … )` error / bad argument position);
+  for the one-token non-autovar leaves, `LeafGen.kleaf_run` for `flag` / `defeated` / `var` leaves with
+  multi-token operands / values / `value( … )`, `C11b.leaf_of_cmd` (generic in the command syntax) resp.
+  `LeafGen.leaf_of_cmd_val` + `CmdGen.cmdF_run` for auto-var leaves, and the three rejections (not configured /
+  `format( … )` error / bad argument position);
 * `cond_S` : `parseBooleanExpression` on a printed condition = `elabCond` (`BoolGen.orF`);
 * `Spec n`, `spec : ∀ n, Spec n` : all 13 functions of the statement block at fuel `n`;
 * `parse_block_elab`, `parse_block_print`, `parse_block_reject`, `fuel_of_tokens`.
